@@ -183,6 +183,9 @@ class Scenario(object):
                     import errno
 
                     def broken(data):
+                        # the failure exists for the client from its first refused write on
+                        if not self.fault_times:
+                            self.fault_times.append(self.rt.now)
                         raise BrokenPipeError(errno.EPIPE, 'Broken pipe')
                     self.br.sock.send_script = broken
                 elif pf == 'NFaultPoll':
@@ -193,7 +196,8 @@ class Scenario(object):
                     self.br.deliver(c, pf)
                 if alive:
                     self.delivered.append((c, fr))
-                    self.fault_times.append(self.rt.now) if isinstance(pf, str) else None
+                    if isinstance(pf, str) and pf != 'NFaultSend':
+                        self.fault_times.append(self.rt.now)
         vrt.pump_all()
 
     def snapshot(self, c):
